@@ -25,10 +25,28 @@ static inline void seen(long long x)
 }
 
 // ---- functor families (ids shared with driver.ml and prop.py) ------------------------------
-struct P1 {
+// result type of the predicates / comparators: op suffix "_t<k>"
+//   (none) bool; _t1 int with truthy value 2 (a masked bit); _t2 int, truthy value -1; _t3 int, truthy value 4096 (lost by a
+//   narrowing to 8 bits); _t4 a class type contextually convertible to bool (through operator int; in the build xbool: explicit operator bool only).
+//   [algorithms.requirements]: an algorithm may use the result of a predicate only through its conversion to bool.
+static int g_tv = 2;
+struct Truthy {
+    int v;
+#ifdef TRUTH_EXPLICIT
+    explicit operator bool() const { return v != 0; }   // build "xbool": every use that is not a contextual conversion fails to compile
+#else
+    operator int() const { return v; }                  // contextually convertible to bool through int; arithmetic on it shows at run time
+#endif
+};
+struct TPBool { static bool of(bool b) { return b; } };
+struct TPInt { static int of(bool b) { return b ? g_tv : 0; } };
+struct TPCls { static Truthy of(bool b) { return Truthy {b ? g_tv : 0}; } };
+
+template <typename TP>
+struct P1T {
     int kind;
     int k;
-    bool operator()(int x) const
+    bool test(int x) const
     {
         seen(x);
         switch (kind) {
@@ -38,10 +56,12 @@ struct P1 {
         default: return x % 3 == k;
         }
     }
+    auto operator()(int x) const { return TP::of(test(x)); }
 };
-struct P2 {
+template <typename TP>
+struct P2T {
     int id;
-    bool operator()(int x, int y) const
+    bool test(int x, int y) const
     {
         seen(x);
         seen(y);
@@ -51,10 +71,12 @@ struct P2 {
         default: return x < y;
         }
     }
+    auto operator()(int x, int y) const { return TP::of(test(x, y)); }
 };
-struct Cmp {
+template <typename TP>
+struct CmpT {
     int id;
-    bool operator()(int x, int y) const
+    bool test(int x, int y) const
     {
         seen(x);
         seen(y);
@@ -66,6 +88,7 @@ struct Cmp {
         default: return x / 16 > y / 16;
         }
     }
+    auto operator()(int x, int y) const { return TP::of(test(x, y)); }
 };
 struct Op2 {
     int id;
@@ -258,8 +281,25 @@ static void outlist(Out& o, Buf const& d, std::ptrdiff_t ret)
 
 #define IMPL(...) guarded(impl, [&](Out& o) { __VA_ARGS__; finish(o); })
 
-bool vh::run_case(std::string const& op, Toks& in, Out& impl, Out& ref)
+template <typename TP>
+static bool run_case_T(std::string const& op, Toks& in, Out& impl, Out& ref);
+bool vh::run_case(std::string const& op_in, Toks& in, Out& impl, Out& ref)
 {
+    std::string op = op_in;
+    int tk = 0;
+    auto n = op.size();
+    if (n > 3 && op[n - 3] == '_' && op[n - 2] == 't' && op[n - 1] >= '1' && op[n - 1] <= '4') { tk = op[n - 1] - '0'; op.resize(n - 3); }
+    if (tk == 0) { return run_case_T<TPBool>(op, in, impl, ref); }
+    if (tk == 4) { g_tv = 2; return run_case_T<TPCls>(op, in, impl, ref); }
+    g_tv = tk == 1 ? 2 : (tk == 2 ? -1 : 4096);
+    return run_case_T<TPInt>(op, in, impl, ref);
+}
+template <typename TP>
+static bool run_case_T(std::string const& op, Toks& in, Out& impl, Out& ref)
+{
+    using P1  = P1T<TP>;
+    using P2  = P2T<TP>;
+    using Cmp = CmpT<TP>;
     g_oob = false;
     // ------------------------------------------------------------ min / max / minmax / clamp
     if (op == "min" || op == "max" || op == "minmax") {
